@@ -263,13 +263,48 @@ def du4_table_driven(ctx, b, calls, length, placeholder):
         raise AnchorLost('DurationItem::print: expected one duration_formatter call inside the unit loop, found %d' % len(inloop))
     bid, t = inloop[0]
     cols = {}
-    for nm, idx in (('placeholder', 2), ('kind', 4)):
-        c = _array_column(strip(b.expr(t['args'][idx])))
-        if c is None:
-            ctx.finding('DU4', 'print/table/%s-not-from-table' % nm, 'the %s handed to duration_formatter inside the loop is not a column of the iterated unit table: %s' % (nm, render(b.expr(t['args'][idx]))[:80]), site=t['loc'])
-            return
-        cols[nm] = c
-    val = strip(b.expr(t['args'][3]))
+    # the arguments by type, not by position: the placeholder (&str), the kind (DurationFormatType), the count (i64) - or one
+    # reference to the table row, whose fields of those types are the columns
+    from ..facts import opplace
+    by_ty = {}
+    row_arg = None
+    for k_, a_ in enumerate(t['args']):
+        pl = opplace(a_)
+        ty = str(pl.get('ty', '')) if pl else str((a_.get('const') or {}).get('ty', ''))
+        if 'DurationFormatType' in ty:
+            by_ty['kind'] = k_
+        elif ty in ('&str', "&'static str") or ty.endswith('&str'):
+            by_ty['placeholder'] = k_
+        elif ty == 'i64':
+            by_ty['count'] = k_
+        elif ty.startswith('&') and _array_column(strip(b.expr(a_))) is not None and k_ >= 2:
+            row_arg = k_
+    if row_arg is not None and ('kind' not in by_ty or 'placeholder' not in by_ty):
+        rows_ = _array_column(strip(b.expr(t['args'][row_arg])))
+        cols['placeholder'], cols['kind'] = [], []
+        for r_ in rows_:
+            r0 = strip(r_)
+            if r0[0] != 'aggr':
+                ctx.finding('DU4', 'print/table/row-shape', 'a row of the unit table is not a literal: %s' % render(r0)[:60], site=t['loc'])
+                return
+            ph_ = [x for x in r0[2] if model.const_str(x) is not None]
+            kd_ = [x for x in r0[2] if strip(x)[0] == 'aggr' and 'DurationFormatType' in str(strip(x)[1])]
+            if len(ph_) != 1 or len(kd_) != 1:
+                ctx.finding('DU4', 'print/table/row-shape', 'a row of the unit table does not hold one placeholder and one kind: %s' % render(r0)[:80], site=t['loc'])
+                return
+            cols['placeholder'].append(ph_[0])
+            cols['kind'].append(kd_[0])
+    else:
+        for nm, idx in (('placeholder', by_ty.get('placeholder', 2)), ('kind', by_ty.get('kind', 4))):
+            if idx >= len(t['args']):
+                ctx.finding('DU4', 'print/table/%s-not-from-table' % nm, 'duration_formatter is not handed a %s inside the loop' % nm, site=t['loc'])
+                return
+            c = _array_column(strip(b.expr(t['args'][idx])))
+            if c is None:
+                ctx.finding('DU4', 'print/table/%s-not-from-table' % nm, 'the %s handed to duration_formatter inside the loop is not a column of the iterated unit table: %s' % (nm, render(b.expr(t['args'][idx]))[:80]), site=t['loc'])
+                return
+            cols[nm] = c
+    val = strip(b.expr(t['args'][by_ty.get('count', 3)]))
     if val[0] != 'binop' or val[1] != 'Div':
         ctx.finding('DU4', 'print/table/value', 'inside the unit loop the printed count is %s, expected remainder / unit' % render(val)[:80], site=t['loc'])
         return
